@@ -816,7 +816,7 @@ def decide(pid, tier, seed):
                                 "modelled, not verified: all of /repo/src (hand-written model tied by differential execution); std Mutex/Arc/Waker, slab, fixedbitset, smallvec, futures-buffered, pin-project, rustc drop glue and async lowering are outside the model"],
                   theorems=pr["theorems"], examples=pr["examples"], proof_status=("ok" if pr["ok"] else pr["why"]),
                   evaluations=stats["evaluations"], distinct_nontrivial=len(stats["nontrivial"]),
-                  rule="corpus, exhaustive small space (suites named *-exhaustive), then random structured cases from VERIF_SEED; "
+                  rule="corpus, exhaustive small space (suites named *-exhaustive), then random structured cases from VERIF_SEED (wake-only executor, adversarial and drain-to-completion schedules, tools/gen.py); "
                        "non-trivial = distinct (config, case) in which at least one child returned Pending at least once",
                   samples=stats["samples"], distribution=stats["dist"], outcomes=stats["outcomes"], projection=projname,
                   configurations=sorted(stats["configs"]), monitor_evaluations=stats["monitor_evals"],
